@@ -384,6 +384,13 @@ class IaSinr(Harness, _Sizes):
         s0 = self.sizes('quick')[0]
         out.append(dict(s0, pathloss=False, noise='sym', mode='full_F'))
         out.append(dict(s0, pathloss=True, noise='sym', mode='F+full_F+P'))
+        # one solver object configured twice: precoders + filters, a first
+        # evaluation (fills the derived filters), then NEW precoders with the
+        # filters kept
+        out.append(dict(s0, pathloss=False, noise='sym', history='reprecode'))
+        if tier != 'quick':
+            out.append(dict(self.sizes('thorough')[3], pathloss=False,
+                            noise='sym', history='reprecode'))
         return out
 
     def sym(self, ctx, cfg):
@@ -395,6 +402,14 @@ class IaSinr(Harness, _Sizes):
         sol = iab.IASolverBaseClass(ch)
         P = sym_array(ctx, 'P', K, positive=True)
         mode = cfg.get('mode', 'F+P')
+        if cfg.get('history') == 'reprecode':
+            F0 = np.empty(K, dtype=object)
+            for k in range(K):
+                F0[k] = sym_array(ctx, 'G%d' % k, F[k].shape, kind='complex')
+            sol.set_precoders(F=F0, P=sym_array(ctx, 'P0', K, positive=True))
+            sol.set_receive_filters(W=U)
+            _ = sol.full_W_H, sol.full_W
+            sol.calc_SINR()
         if mode == 'F+P':
             sol.set_precoders(F=F, P=P)
         elif mode == 'full_F':
@@ -404,7 +419,8 @@ class IaSinr(Harness, _Sizes):
             for k in range(K):
                 back[k] = F[k] * ctx.real('backoff%d' % k, lo=0, hi=1)
             sol.set_precoders(F=F, full_F=back, P=P)
-        sol.set_receive_filters(W=U)
+        if not cfg.get('history'):
+            sol.set_receive_filters(W=U)
         sinr = sol.calc_SINR()
         nvv = nv if nv is not None else 0
         # The solver evaluates the SINR with its power-scaled precoders and
@@ -466,6 +482,15 @@ class IaSinr(Harness, _Sizes):
         sol = iab.IASolverBaseClass(ch)
         P = np.array([rng.uniform(0.2, 3) for _ in range(K)])
         mode = cfg.get('mode', 'F+P')
+        if cfg.get('history') == 'reprecode':
+            F0 = np.empty(K, dtype=object)
+            for k in range(K):
+                F0[k] = crandn(rng, *F[k].shape)
+            sol.set_precoders(F=F0, P=np.array([rng.uniform(0.2, 3)
+                                                for _ in range(K)]))
+            sol.set_receive_filters(W=U)
+            _ = sol.full_W_H, sol.full_W
+            sol.calc_SINR()
         if mode == 'F+P':
             sol.set_precoders(F=F, P=P)
         elif mode == 'full_F':
@@ -475,14 +500,35 @@ class IaSinr(Harness, _Sizes):
             for k in range(K):
                 back[k] = F[k] * rng.uniform(0.2, 1)
             sol.set_precoders(F=F, full_F=back, P=P)
-        sol.set_receive_filters(W=U)
+        if not cfg.get('history'):
+            sol.set_receive_filters(W=U)
         s1 = sol.calc_SINR()
         fullF = sol.full_F
-        s2 = ch.calc_SINR(fullF, U)
         bad = []
+        if Ns == [1] * K:
+            # one stream: the full filter is a rescaling of the user's own
+            s2 = ch.calc_SINR(fullF, U)
+            for k in range(K):
+                if not np.allclose(s1[k], s2[k], rtol=1e-8):
+                    bad.append('ia!=channel[%d]' % k)
+        # from scratch: first principles for the filter inv(W^H H F) W^H
         for k in range(K):
-            if not np.allclose(s1[k], s2[k], rtol=1e-8):
-                bad.append('ia!=channel[%d]' % k)
+            Heq = U[k].conj().T @ Hkl(k, k) @ fullF[k]
+            wh = np.linalg.solve(Heq, U[k].conj().T)
+            if not np.allclose(sol.full_W_H[k], wh, rtol=1e-7, atol=1e-9):
+                bad.append('full-receive-filter[%d]' % k)
+            for l in range(Ns[k]):
+                u = wh.conj().T[:, l:l + 1]
+                num = abs((u.conj().T @ Hkl(k, k) @
+                           fullF[k][:, l:l + 1]).item())**2
+                den = nv * np.linalg.norm(u)**2
+                for j in range(K):
+                    for m in range(Ns[j]):
+                        if (j, m) != (k, l):
+                            den += abs((u.conj().T @ Hkl(k, j) @
+                                        fullF[j][:, m:m + 1]).item())**2
+                if abs(s1[k][l] - num / den) > 1e-7 * max(1, num / den):
+                    bad.append('ia-sinr!=first-principles[%d]' % k)
         return bad
 
     def replay(self, cfg, name, model):
@@ -490,7 +536,9 @@ class IaSinr(Harness, _Sizes):
         for seed in range(16):
             bad = self._oracle(cfg, random.Random(seed))
             if bad:
-                return dict(reproduced=True, key='C11/ia/sinr-disagrees',
+                return dict(reproduced=True, key='C11/ia/sinr-disagrees' + (
+                    ':second-configuration-of-the-same-solver'
+                    if cfg.get('history') else ''),
                             detail=dict(seed=seed, bad=bad, cfg=cfg))
         return dict(reproduced=False, key=None, detail='no witness')
 
@@ -610,7 +658,284 @@ class ExtIntSinr(Harness, _Sizes):
         return 4
 
 
-HARNESSES = [ChannelSinr(), IaSinr(), ExtIntSinr()]
+class JpSinr(Harness):
+    """joint-processing variants (every precoder spans all transmit antennas):
+    calc_JP_SINR / calc_JP_Q of the plain and the external-interference channel
+    objects against first principles, also after the SAME object was
+    re-initialised with another split of the same antenna totals."""
+    name = 'jp-sinr'
+    modules = (MU, MISC)
+    functions = (MU + ':MultiUserChannelMatrix.calc_JP_SINR',
+                 MU + ':MultiUserChannelMatrix.calc_JP_Q',
+                 MU + ':MultiUserChannelMatrix.get_Hk',
+                 MU + ':MultiUserChannelMatrix.init_from_channel_matrix',
+                 MU + ':MultiUserChannelMatrix.set_pathloss',
+                 MU + ':MultiUserChannelMatrixExtInt.calc_JP_SINR',
+                 MU + ':MultiUserChannelMatrixExtInt.calc_JP_Q',
+                 MU + ':MultiUserChannelMatrixExtInt.calc_SINR',
+                 MU + ':MultiUserChannelMatrixExtInt.calc_Q')
+    bounds = ('K = 2, Nr/Nt in {[2,2], [1,2]/[2,1]}, one stream per user, one '
+              'external interference source; path loss on/off, noise '
+              'symbolic/None; histories: path loss set, evaluate, then '
+              'init_from_channel_matrix on the same object with the split '
+              '[1,2]/[2,1] <-> [2,1]/[1,2] (same totals), evaluate again')
+    assumptions = ('denominators non-zero', )
+    div_mode = 'assume'
+    reach = 'concrete'
+    unit_wall_s = {'quick': 300, 'thorough': 900}
+
+    def configs(self, tier):
+        a = dict(K=2, Nr=[2, 2], Nt=[2, 2], Ns=[1, 1])
+        b = dict(K=2, Nr=[1, 2], Nt=[2, 1], Ns=[1, 1])
+        out = []
+        for ext in (0, 1):
+            for s in ((b, ) if tier == 'quick' else (a, b)):
+                out.append(dict(s, extint=ext, pathloss=True, noise='sym'))
+            out.append(dict(b, extint=ext, pathloss=False, noise=None))
+            # same object, new split of the same totals
+            out.append(dict(b, extint=ext, pathloss=True, noise='sym',
+                            relayout=dict(Nr=[2, 1], Nt=[1, 2])))
+            if tier != 'quick':
+                out.append(dict(a, extint=ext, pathloss=True, noise=None))
+                out.append(dict(b, extint=ext, pathloss=True, noise=None,
+                                relayout=dict(Nr=[2, 1], Nt=[2, 1])))
+                out.append(dict(dict(K=2, Nr=[2, 2], Nt=[2, 2], Ns=[1, 1]),
+                                extint=ext, pathloss=True, noise='sym',
+                                relayout=dict(Nr=[1, 3], Nt=[3, 1])))
+        return out
+
+    # the same scenario for symbolic and numeric values -----------------------
+    @staticmethod
+    def _scenario(cfg, mk, sqrt):
+        """-> (ch, F, U, nv, pe, Hk, Hext, Nr) after the configured history"""
+        mu = repo_module(MU)
+        K, Ns, ext = cfg['K'], cfg['Ns'], cfg['extint']
+        Nr, Nt = cfg['Nr'], cfg['Nt']
+        ch = mu.MultiUserChannelMatrixExtInt() if ext else \
+            mu.MultiUserChannelMatrix()
+
+        def init(tag, Nr, Nt):
+            M = mk.cmat('H' + tag, (sum(Nr), sum(Nt) + ext))
+            if ext:
+                ch.init_from_channel_matrix(M, np.array(Nr), np.array(Nt), K,
+                                            ext)
+            else:
+                ch.init_from_channel_matrix(M, np.array(Nr), np.array(Nt), K)
+            return M
+        M = init('', Nr, Nt)
+        pl = None
+        if cfg.get('pathloss'):
+            pl = mk.pmat('pl', (K, K + ext))
+            if ext:
+                ch.set_pathloss(pl[:, :K], pl[:, K:])
+            else:
+                ch.set_pathloss(pl)
+        nv = None
+        if cfg.get('noise') == 'sym':
+            nv = mk.pos('nv')
+            ch.noise_var = nv
+        pe = mk.pos('pe') if ext else None
+
+        def mkFU(tag, Nr, Nt):
+            F = np.empty(K, dtype=object)
+            U = np.empty(K, dtype=object)
+            for k in range(K):
+                F[k] = mk.cmat('F%s%d' % (tag, k), (sum(Nt), Ns[k]))
+                U[k] = mk.cmat('U%s%d' % (tag, k), (Nr[k], Ns[k]))
+            return F, U
+        F, U = mkFU('', Nr, Nt)
+        rl = cfg.get('relayout')
+        if rl:
+            # first evaluation on the old layout (may fill caches)
+            if ext:
+                ch.calc_JP_SINR(F, U, pe)
+                ch.calc_SINR(*JpSinr._ic(mk, 'a', K, Nr, Nt, Ns), pe)
+            else:
+                ch.calc_JP_SINR(F, U)
+                ch.calc_SINR(*JpSinr._ic(mk, 'a', K, Nr, Nt, Ns))
+            _ = ch.big_H
+            Nr, Nt = rl['Nr'], rl['Nt']
+            M = init('B', Nr, Nt)
+            F, U = mkFU('B', Nr, Nt)
+        cr = np.r_[0, np.cumsum(Nr)]
+        ct = np.r_[0, np.cumsum(list(Nt) + ([ext] if ext else []))]
+
+        def blk(k, l):
+            b = M[cr[k]:cr[k + 1], ct[l]:ct[l + 1]]
+            if pl is not None:
+                return b * sqrt(pl[k, l])
+            return b
+
+        def Hk(k):
+            return np.hstack([blk(k, l) for l in range(K)])
+
+        def Hext(k):
+            return blk(k, K)
+        return ch, F, U, nv, pe, Hk, Hext, blk, Nr, Nt
+
+    @staticmethod
+    def _ic(mk, tag, K, Nr, Nt, Ns):
+        F = np.empty(K, dtype=object)
+        U = np.empty(K, dtype=object)
+        for k in range(K):
+            F[k] = mk.cmat('f%s%d' % (tag, k), (Nt[k], Ns[k]))
+            U[k] = mk.cmat('u%s%d' % (tag, k), (Nr[k], Ns[k]))
+        return F, U
+
+    def sym(self, ctx, cfg):
+        ctx.abs_mode = 'atom'
+
+        class Mk:
+            @staticmethod
+            def cmat(n, shape):
+                return sym_array(ctx, n, shape, kind='complex')
+
+            @staticmethod
+            def pmat(n, shape):
+                return sym_array(ctx, n, shape, positive=True)
+
+            @staticmethod
+            def pos(n):
+                return ctx.real(n, lo=0)
+        ch, F, U, nv, pe, Hk, Hext, blk, Nr, Nt = self._scenario(
+            cfg, Mk, lambda x: x.sqrt())
+        K, Ns, ext = cfg['K'], cfg['Ns'], cfg['extint']
+        nvv = nv if nv is not None else 0
+        sinr = ch.calc_JP_SINR(F, U, pe) if ext else ch.calc_JP_SINR(F, U)
+        for k in range(K):
+            H = C.as_cmat(Hk(k))
+            for l in range(Ns[k]):
+                u = _col(U[k], l)
+                num = _quad(u, C.mm(H, _col(F[k], l)))
+                den = _norm2(u) * nvv
+                if ext:
+                    den = den + _quad(u, C.as_cmat(Hext(k))) * pe
+                for j in range(K):
+                    for m in range(Ns[j]):
+                        if (j, m) != (k, l):
+                            den = den + _quad(u, C.mm(H, _col(F[j], m)))
+                _prove_ratio(ctx, 'jp-sinr[%d][%d]=first-principles' % (k, l),
+                             sinr[k][l], num, den)
+        for k in range(K):
+            Q = C.as_cmat(ch.calc_JP_Q(k, F, pe) if ext else
+                          ch.calc_JP_Q(k, F))
+            H = C.as_cmat(Hk(k))
+            ref = None
+            for j in range(K):
+                if j != k:
+                    Mx = C.mm(H, C.as_cmat(F[j]))
+                    t = C.mm(Mx, C.herm(Mx))
+                    ref = t if ref is None else ref + t
+            if ext:
+                E = C.as_cmat(Hext(k))
+                ref = ref + C.mm(E, C.herm(E)) * C._c(SReal(0) + pe)
+            if nv is not None:
+                ref = ref + C.eye(Nr[k]) * C._c(SReal(0) + nvv)
+            prove_zero(ctx, 'jp-Q[%d]=sum-of-link-covariances(+noise)' % k,
+                       Q - ref, fallback_exact=False)
+            prove_zero(ctx, 'jp-Q[%d]-hermitian' % k, Q - C.herm(Q),
+                       fallback_exact=False)
+        if cfg.get('relayout'):
+            # the interference-channel values of the re-initialised object
+            Fi, Ui = self._ic(Mk, 'b', K, Nr, Nt, Ns)
+            s2 = ch.calc_SINR(Fi, Ui, pe) if ext else ch.calc_SINR(Fi, Ui)
+            for k in range(K):
+                u = _col(Ui[k], 0)
+                num = _quad(u, C.mm(C.as_cmat(blk(k, k)), _col(Fi[k], 0)))
+                den = _norm2(u) * nvv
+                if ext:
+                    den = den + _quad(u, C.as_cmat(Hext(k))) * pe
+                for j in range(K):
+                    if j != k:
+                        den = den + _quad(u, C.mm(C.as_cmat(blk(k, j)),
+                                                  _col(Fi[j], 0)))
+                _prove_ratio(ctx, 'sinr-after-relayout[%d]' % k, s2[k][0],
+                             num, den)
+
+    def _oracle(self, cfg, rng):
+        class Mk:
+            @staticmethod
+            def cmat(n, shape):
+                return crandn(rng, *shape)
+
+            @staticmethod
+            def pmat(n, shape):
+                return np.array([[rng.uniform(0.05, 1) for _ in range(
+                    shape[1])] for _ in range(shape[0])])
+
+            @staticmethod
+            def pos(n):
+                return rng.uniform(0.01, 2)
+        ch, F, U, nv, pe, Hk, Hext, blk, Nr, Nt = self._scenario(
+            cfg, Mk, np.sqrt)
+        K, Ns, ext = cfg['K'], cfg['Ns'], cfg['extint']
+        nvv = nv if nv is not None else 0.0
+        bad = []
+        sinr = ch.calc_JP_SINR(F, U, pe) if ext else ch.calc_JP_SINR(F, U)
+        for k in range(K):
+            H = Hk(k)
+            for l in range(Ns[k]):
+                u = U[k][:, l:l + 1]
+                num = abs((u.conj().T @ H @ F[k][:, l:l + 1]).item())**2
+                den = nvv * np.linalg.norm(u)**2
+                if ext:
+                    den += pe * np.sum(np.abs(u.conj().T @ Hext(k))**2)
+                for j in range(K):
+                    for m in range(Ns[j]):
+                        if (j, m) != (k, l):
+                            den += abs((u.conj().T @ H @
+                                        F[j][:, m:m + 1]).item())**2
+                if abs(sinr[k][l] - num / den) > 1e-8 * max(1, num / den):
+                    bad.append('jp-sinr')
+        for k in range(K):
+            Q = ch.calc_JP_Q(k, F, pe) if ext else ch.calc_JP_Q(k, F)
+            H = Hk(k)
+            ref = sum(H @ F[j] @ F[j].conj().T @ H.conj().T
+                      for j in range(K) if j != k)
+            if ext:
+                ref = ref + pe * Hext(k) @ Hext(k).conj().T
+            if nv is not None:
+                ref = ref + nv * np.eye(Nr[k])
+            if not np.allclose(Q, ref, atol=1e-9):
+                bad.append('jp-Q')
+        if cfg.get('relayout'):
+            Fi, Ui = self._ic(Mk, 'b', K, Nr, Nt, Ns)
+            s2 = ch.calc_SINR(Fi, Ui, pe) if ext else ch.calc_SINR(Fi, Ui)
+            for k in range(K):
+                u = Ui[k][:, :1]
+                num = abs((u.conj().T @ blk(k, k) @ Fi[k][:, :1]).item())**2
+                den = nvv * np.linalg.norm(u)**2
+                if ext:
+                    den += pe * np.sum(np.abs(u.conj().T @ Hext(k))**2)
+                for j in range(K):
+                    if j != k:
+                        den += abs((u.conj().T @ blk(k, j) @
+                                    Fi[j][:, :1]).item())**2
+                if abs(s2[k][0] - num / den) > 1e-8 * max(1, num / den):
+                    bad.append('sinr-after-relayout')
+        return sorted(set(bad))
+
+    def replay(self, cfg, name, model):
+        import random
+        for seed in range(16):
+            bad = self._oracle(cfg, random.Random(seed))
+            if bad:
+                return dict(reproduced=True,
+                            key='C11/%s/%s%s' % (
+                                'extint-jp' if cfg['extint'] else 'jp',
+                                '+'.join(bad), ':after-relayout'
+                                if cfg.get('relayout') else ''),
+                            detail=dict(seed=seed, bad=bad, cfg=cfg))
+        return dict(reproduced=False, key=None, detail='no witness in 16 draws')
+
+    def concrete(self, cfg, rng):
+        for _ in range(4):
+            bad = self._oracle(cfg, rng)
+            assert not bad, bad
+        return 4
+
+
+HARNESSES = [ChannelSinr(), IaSinr(), ExtIntSinr(), JpSinr()]
 
 MANIFEST = dict(
     category='model_checking',
